@@ -262,13 +262,13 @@ def _unit(rng):
     return v / np.linalg.norm(v)
 
 
-def make_mobile(rng, n, cyclic=False):
+def make_mobile(rng, n, cyclic=False, chain=False):
     """positions of a random tree (optionally with extra ring-closing bonds) and its bond table
     measured on the geometry, as Molecule.bonds_distance does"""
     pos = np.zeros((n, 3))
     edges = []
     for i in range(1, n):
-        p = int(rng.integers(0, i))
+        p = i - 1 if chain else int(rng.integers(0, i))
         pos[i] = pos[p] + _unit(rng) * rng.uniform(0.1, 0.3)
         edges.append((p, i))
     if cyclic and n >= 3:
@@ -304,11 +304,16 @@ def _work_genuine(args):
             nm = int(rng.choice([1, 2, 3, 4, 6, 9, 14, 25]))
             nf = int(rng.integers(1, 41))
             cyc = bool(rng.random() < 0.15)
-            mobile, table, tree = make_mobile(rng, nm, cyc)
+            long_chain = tid % 40 == 2
+            if long_chain:
+                nm, cyc = int(rng.integers(320, 420)), False       # a polymer: single-atom moves walk the whole chain
+            mobile, table, tree = make_mobile(rng, nm, cyc, chain=long_chain)
             fixed = rng.normal(size=(nf, 3)) * 0.5 + rng.normal(size=3) * 0.3
             subsets = [(0,), (1,), (0, 1)] if nm < 2 else [(0,), (1,), (2,), (0, 1), (0, 2), (1, 2), (0, 1, 2), (2, 2, 0)]
             types = subsets[int(rng.integers(0, len(subsets)))]
             n_steps = int(round(math.exp(rng.uniform(0, math.log(max_budget)))))
+            if long_chain:
+                types, n_steps = (2,) if tid % 80 == 2 else (0, 2), min(n_steps, 3)
             restr = random_restraints(rng, nf, nm)
             np.random.seed(int(seed % (2 ** 32)))
             obs = Observer(table, cap=40 * n_steps + 3000)
